@@ -167,7 +167,13 @@ func H_C22_IdxMode() {
 	opt2.EntryIdxMode = m2
 	db2, err := Open(opt2)
 	sparse1, sparse2 := m1 == HintBPTSparseIdxMode, m2 == HintBPTSparseIdxMode
-	hasData := state >= 1
+	// "holds data": a data segment is present (a Merge of fully deleted data removes every segment)
+	hasData := false
+	for _, it := range img0 {
+		if len(it.tag) > 4 && it.tag[len(it.tag)-4:] == DataSuffix {
+			hasData = true
+		}
+	}
 	if sparse1 != sparse2 && hasData {
 		vAssert("c22.incompatible-mode-refused", err != nil)
 		if err == nil {
